@@ -21,6 +21,7 @@ Section StyInd.
   Hypothesis HList : forall e, P e -> P (SList e).
   Hypothesis HSet : forall e, P e -> P (SSet e).
   Hypothesis HMap : forall k v, P k -> P v -> P (SMap k v).
+  Hypothesis HBundle : forall id ps, Forall P ps -> P (SBundle id ps).
   Fixpoint sty_ind' (s : sty) : P s :=
     match s with
     | SAtom a => HAtom a
@@ -29,6 +30,8 @@ Section StyInd.
     | SList e => HList e (sty_ind' e)
     | SSet e => HSet e (sty_ind' e)
     | SMap k v => HMap k v (sty_ind' k) (sty_ind' v)
+    | SBundle id ps => HBundle id ps ((fix go (l : list sty) : Forall P l :=
+                                        match l with [] => Forall_nil P | x :: r => Forall_cons x (sty_ind' x) (go r) end) ps)
     end.
 End StyInd.
 
@@ -132,21 +135,23 @@ Qed.
 
 Lemma sty_eqb_refl s : sty_eqb s s = true.
 Proof.
-  induction s as [a | l IH | e IH | e IH | k v IHk IHv] using sty_ind'; cbn [sty_eqb]; auto.
+  induction s as [a | l IH | e IH | e IH | k v IHk IHv | id ps IH] using sty_ind'; cbn [sty_eqb]; auto.
   - apply Z.eqb_refl.
   - apply forall2b_refl. exact IH.
   - rewrite IHk, IHv. auto.
+  - rewrite Z.eqb_refl. cbn [andb]. apply forall2b_refl. exact IH.
 Qed.
 
 Lemma sty_eqb_eq a : forall b, sty_eqb a b = true -> a = b.
 Proof.
-  induction a as [a | l IH | e IH | e IH | k v IHk IHv] using sty_ind'; intros [b | l' | e' | e' | k' v'];
+  induction a as [a | l IH | e IH | e IH | k v IHk IHv | id ps IH] using sty_ind'; intros [b | l' | e' | e' | k' v' | id' ps'];
     cbn [sty_eqb]; try discriminate; intros H.
   - f_equal. lia.
   - f_equal. eapply forall2b_eq; eauto.
   - f_equal; auto.
   - f_equal; auto.
   - apply andb_prop in H. destruct H. f_equal; auto.
+  - apply andb_prop in H. destruct H as [H1 H2]. f_equal; [lia | eapply forall2b_eq; eauto].
 Qed.
 
 Lemma tty_eqb_refl t : tty_eqb t t = true.
@@ -327,6 +332,13 @@ Fixpoint tinst (m : rmap) (p : tpat) (t0 : tty) {struct p} : bool :=
   | PSignal => match t with TSignal => true | _ => false end
   end.
 
+(* input_scalar_pattern_match: a scalar variable bound to a named bundle accepts any descendant bundle *)
+Definition bound_bundle_accepts (m : rmap) (sp : spat) (s : sty) : bool :=
+  match sp with
+  | PSVar v _ => match afind v (r_sc m) with Some b => bundle_is_a s b | None => false end
+  | _ => false
+  end.
+
 (* input direction (input_ts_pattern_match): SIGNAL accepts anything, REF adapts at the consumer,
    concrete leaves compare dereferenced *)
 Fixpoint iinst (m : rmap) (p : tpat) (t0 : tty) {struct p} : bool :=
@@ -349,7 +361,7 @@ Fixpoint iinst (m : rmap) (p : tpat) (t0 : tty) {struct p} : bool :=
       | TTsb _ _ => match afind v (r_ts m) with Some b => tty_equiv b t | None => false end
       | _ => false
       end
-  | PTs sp => match t with TTs s => sinst m sp s | _ => false end
+  | PTs sp => match t with TTs s => sinst m sp s || bound_bundle_accepts m sp s | _ => false end
   | PVar _ _ | PTss _ | PTsw _ _ _ _ => tinst m p t
   end.
 
@@ -413,13 +425,22 @@ Proof.
   - destruct t0; auto.
 Qed.
 
+Lemma bound_bundle_accepts_mono m m' : extends m m' -> forall sp s,
+  bound_bundle_accepts m sp s = true -> bound_bundle_accepts m' sp s = true.
+Proof.
+  intros [_ [Hsc _]] sp s. destruct sp; cbn [bound_bundle_accepts]; auto.
+  destruct (afind v (r_sc m)) as [b|] eqn:E; [|discriminate]. rewrite (Hsc v b E). auto.
+Qed.
+
 Lemma iinst_mono m m' : extends m m' -> forall p t, iinst m p t = true -> iinst m' p t = true.
 Proof.
   intros Hext p. pose proof Hext as [Hts _].
   induction p as [v cn | c | sp | sp | sz e IH | k v IH | a per mn sp | nd nm fps IH | v | q IH | ] using tpat_ind';
     intros t0; cbn [iinst]; auto.
   - apply tinst_mono; auto.
-  - destruct (strip_refs t0); auto. apply sinst_mono; auto.
+  - destruct (strip_refs t0); auto. intros H. apply orb_prop in H. destruct H as [H|H].
+    + rewrite (sinst_mono _ _ Hext _ _ H). auto.
+    + rewrite (bound_bundle_accepts_mono _ _ Hext _ _ H). apply orb_true_r.
   - apply tinst_mono; auto.
   - destruct (strip_refs t0); auto. intros H. apply andb_prop in H. destruct H as [H1 H2].
     rewrite (szinst_mono _ _ Hext _ _ H1), (IH _ H2). auto.
@@ -526,7 +547,13 @@ Proof.
     intros t0 m m'; cbn [imatch iinst].
   - apply tmatch_sound.
   - destruct (input_accepts c (strip_refs t0)); [|discriminate]. intros H; inversion H; subst. split; [apply extends_refl | auto].
-  - destruct (strip_refs t0); try discriminate. apply smatch_sound.
+  - destruct (strip_refs t0); try discriminate.
+    assert (forall m', smatch sp s m = Some m' -> extends m m' /\ sinst m' sp s || bound_bundle_accepts m' sp s = true) as Hs.
+    { intros m1 H1. apply smatch_sound in H1. destruct H1 as [X G]. rewrite G. auto. }
+    destruct sp; try apply Hs. cbn [bound_bundle_accepts].
+    destruct (afind v (r_sc m)) as [b|] eqn:E; [|apply Hs].
+    destruct (bundle_is_a s b) eqn:EB; [|apply Hs].
+    intros H; inversion H; subst. split; [apply extends_refl|]. rewrite E, EB. apply orb_true_r.
   - apply tmatch_sound.
   - destruct (strip_refs t0); try discriminate. destruct (szmatch sz n m) as [m1|] eqn:E; [|discriminate]. intros H.
     destruct (szmatch_sound _ _ _ _ E) as [X1 G1]. destruct (IH _ _ _ H) as [X2 G2].
@@ -615,52 +642,69 @@ Proof.
   - destruct sp; auto; apply sinst_mono; auto.
 Qed.
 
+(* what one accepted argument adds to the rank adjustment, exactly as try_match computes it:
+   the inheritance distance for a concrete TS[Base] leaf taking a TS[Derived] (input_adaptation_rank),
+   1 for a plain value promoted to a const source, 1 for a coerced scalar *)
+Definition arg_cost (pr : param) (a : arg) : Z :=
+  match pr, a with
+  | PIn (PConc c), ATs t => adaptation_rank_c c t
+  | PIn _, ASc _ => 1
+  | PScal (PSConc c), ASc v => if sty_eqb v c then 0 else 1
+  | _, _ => 0
+  end.
+
+Fixpoint args_cost (ps : list param) (al : list arg) : Z :=
+  match ps, al with
+  | pr :: ps', a :: al' => arg_cost pr a + args_cost ps' al'
+  | _, _ => 0
+  end.
+
 Lemma match_arg_sound pr a m adj m' adj' :
   match_arg pr a (m, adj) = Some (m', adj') ->
-  extends m m' /\ arg_inst m' pr a /\ adj <= adj' <= adj + 1.
+  extends m m' /\ arg_inst m' pr a /\ adj' = adj + arg_cost pr a.
 Proof.
   unfold match_arg. destruct pr as [p|sp], a as [t|v| |]; try discriminate; try (destruct sp; discriminate).
   - destruct (imatch p t m) as [m1|] eqn:E; cbn [option_map]; [|discriminate]. intros H; inversion H; subst.
-    apply imatch_sound in E. cbn [arg_inst]. split; [tauto|]. split; [tauto | lia].
+    apply imatch_sound in E. cbn [arg_inst arg_cost]. split; [tauto|]. split; [tauto | destruct p; lia].
   - destruct (promote p v m) as [m1|] eqn:E; cbn [option_map]; [|discriminate]. intros H; inversion H; subst.
-    apply promote_extends in E. cbn [arg_inst]. split; auto. split; auto. lia.
-  - intros H; inversion H; subst. cbn [arg_inst]. split; [apply extends_refl|]. split; auto. lia.
+    apply promote_extends in E. cbn [arg_inst arg_cost]. split; auto. split; auto. destruct p; lia.
+  - intros H; inversion H; subst. cbn [arg_inst arg_cost]. split; [apply extends_refl|]. split; auto. destruct p; lia.
   - destruct sp; try discriminate.
     + destruct (smatch (PSVar v0 cn) v m) as [m1|] eqn:E; cbn [option_map]; [|discriminate]. intros H; inversion H; subst.
-      apply smatch_sound in E. cbn [arg_inst]. split; [tauto|]. split; [tauto | lia].
+      apply smatch_sound in E. cbn [arg_inst arg_cost]. split; [tauto|]. split; [tauto | lia].
     + destruct (sty_eqb v s) eqn:E1.
-      * intros H; inversion H; subst. apply sty_eqb_eq in E1. cbn [arg_inst].
+      * intros H; inversion H; subst. cbn [arg_inst arg_cost]. rewrite E1. apply sty_eqb_eq in E1.
         split; [apply extends_refl|]. split; auto. lia.
-      * destruct (coercible v s) eqn:E2; [|discriminate]. intros H; inversion H; subst. cbn [arg_inst].
-        split; [apply extends_refl|]. split; auto. lia.
+      * destruct (coercible v s) eqn:E2; [|discriminate]. intros H; inversion H; subst. cbn [arg_inst arg_cost]. rewrite E1.
+        split; [apply extends_refl|]. split; auto.
     + destruct (smatch PSUnk0 v m) as [m1|] eqn:E; cbn [option_map]; [|discriminate]. intros H; inversion H; subst.
-      apply smatch_sound in E. cbn [arg_inst]. split; [tauto|]. split; [tauto | lia].
+      apply smatch_sound in E. cbn [arg_inst arg_cost]. split; [tauto|]. split; [tauto | lia].
     + destruct (smatch (PSUnk1 sp) v m) as [m1|] eqn:E; cbn [option_map]; [|discriminate]. intros H; inversion H; subst.
-      apply smatch_sound in E. cbn [arg_inst]. split; [tauto|]. split; [tauto | lia].
+      apply smatch_sound in E. cbn [arg_inst arg_cost]. split; [tauto|]. split; [tauto | lia].
     + destruct (smatch (PSHom sp) v m) as [m1|] eqn:E; cbn [option_map]; [|discriminate]. intros H; inversion H; subst.
-      apply smatch_sound in E. cbn [arg_inst]. split; [tauto|]. split; [tauto | lia].
+      apply smatch_sound in E. cbn [arg_inst arg_cost]. split; [tauto|]. split; [tauto | lia].
     + destruct (smatch (PSFix l) v m) as [m1|] eqn:E; cbn [option_map]; [|discriminate]. intros H; inversion H; subst.
-      apply smatch_sound in E. cbn [arg_inst]. split; [tauto|]. split; [tauto | lia].
+      apply smatch_sound in E. cbn [arg_inst arg_cost]. split; [tauto|]. split; [tauto | lia].
     + destruct (smatch (PSSet sp) v m) as [m1|] eqn:E; cbn [option_map]; [|discriminate]. intros H; inversion H; subst.
-      apply smatch_sound in E. cbn [arg_inst]. split; [tauto|]. split; [tauto | lia].
+      apply smatch_sound in E. cbn [arg_inst arg_cost]. split; [tauto|]. split; [tauto | lia].
     + destruct (smatch (PSMap sp1 sp2) v m) as [m1|] eqn:E; cbn [option_map]; [|discriminate]. intros H; inversion H; subst.
-      apply smatch_sound in E. cbn [arg_inst]. split; [tauto|]. split; [tauto | lia].
-  - destruct sp; try discriminate. intros H; inversion H; subst. cbn [arg_inst].
+      apply smatch_sound in E. cbn [arg_inst arg_cost]. split; [tauto|]. split; [tauto | lia].
+  - destruct sp; try discriminate. intros H; inversion H; subst. cbn [arg_inst arg_cost].
     split; [apply extends_refl|]. split; auto. lia.
 Qed.
 
 Lemma match_args_sound ps : forall al m adj m' adj',
   match_args ps al (m, adj) = Some (m', adj') ->
-  extends m m' /\ Forall2 (arg_inst m') ps al /\ adj <= adj' <= adj + Z.of_nat (length ps).
+  extends m m' /\ Forall2 (arg_inst m') ps al /\ adj' = adj + args_cost ps al.
 Proof.
-  induction ps as [|pr r IH]; intros [|a al] m adj m' adj'; cbn [match_args]; try discriminate.
-  - intros H; inversion H; subst. split; [apply extends_refl|]. split; [constructor | cbn; lia].
+  induction ps as [|pr r IH]; intros [|a al] m adj m' adj'; cbn [match_args args_cost]; try discriminate.
+  - intros H; inversion H; subst. split; [apply extends_refl|]. split; [constructor | lia].
   - destruct (match_arg pr a (m, adj)) as [[m1 adj1]|] eqn:E; [|discriminate]. intros H.
     destruct (match_arg_sound _ _ _ _ _ _ E) as [X1 [G1 A1]].
     destruct (IH _ _ _ _ _ H) as [X2 [G2 A2]].
     split; [eapply extends_trans; eauto|]. split.
     + constructor; auto. eapply arg_inst_mono; eauto.
-    + cbn [length]. lia.
+    + lia.
 Qed.
 
 Lemma bind_hints_extends names : forall hints m m', bind_hints names hints m = Some m' -> extends m m'.
@@ -702,7 +746,7 @@ Theorem try_match_sound_lemma : forall c q m k,
   (c_has_out c = true -> exists t, tresolve (c_out c) m = Some t) /\
   (c_has_out c = true -> forall e, q_expected q = Some e -> oinst m (c_out c) e = true) /\
   (forall b, q_outreq q = Some b -> c_has_out c = b) /\
-  c_rank c + dused <= k <= c_rank c + dused + Z.of_nat (length (c_params c)).
+  k = c_rank c + dused + args_cost (c_params c) nargs.
 Proof.
   intros c q m k. unfold try_match.
   destruct (normalize (c_defaults c) (q_args q)) as [[nargs dused]|] eqn:EN; [|discriminate].
